@@ -152,8 +152,10 @@ class TlcResult:
         self.prints = re.findall(r'^(<<"VT_[A-Z_]+".*>>)\s*$', out, re.M)
 
     def tail(self, n=40):
-        keep = [x for x in self.out.splitlines() if not x.startswith(("Parsing file", "Semantic processing", "Linting of"))]
-        return "\n".join(keep[-n:])
+        keep = [x for x in self.out.splitlines() if x.strip() and not x.startswith(("Parsing file", "Semantic processing", "Linting of", "State ", "l = "))
+                and not x.lstrip()[:1].isdigit()]
+        errs = [x for x in keep if x.startswith("Error:")]
+        return "\n".join(errs[:6] + ["..."] + keep[-n:] if errs else keep[-n:])
 
 
 _run_counter = [0]
